@@ -305,6 +305,41 @@ def random_name(rng):
     return arity, links, final
 
 
+def dst_case(rng):
+    """handler(new) / handler(name, new) on a two-level name with a '.' Instance first link: the
+    one shape for which the documentation promises that a change of the link is mapped to its
+    effect on the final trait.  The link is reassigned to fresh objects whose final value equals
+    (`sc 0 2`) or differs from (`sc 0 1`) the replaced one's.  Implementation + oracle only."""
+    arity = rng.choice([1, 2])
+    final = "v" if rng.random() < 0.8 else "x"
+    mode = rng.choice(["", "", "", "D", "K"])
+    sh = Shadow()
+    ops = []
+    nops = rng.randint(2, 10)
+    reg_at = 0 if rng.random() < 0.5 else rng.randint(0, 3)
+    for i in range(nops + 1):
+        if i == reg_at and not sh.registered:
+            op = ["rg"]
+        else:
+            r = rng.random()
+            kid = sh.child[0]
+            if r < 0.30:
+                op = ["sc", 0, 1]
+            elif r < 0.62:
+                op = ["sc", 0, 2]
+            elif r < 0.72 and kid is not None:
+                op = [rng.choice(["pv", "px"]), kid]
+            elif r < 0.80:
+                op = [rng.choice(["pv", "px"]), rng.randrange(sh.next)]
+            elif r < 0.88:
+                op = ["rm"] if sh.registered else ["rg"]
+            else:
+                op = _op_on(rng, sh, rng.randrange(sh.next), rng.choice("kb"), 20)
+        sh.apply(op)
+        ops.append(op)
+    return show_name(arity, [("c", True)], final, mode) + "|" + show_ops(ops)
+
+
 def show_name(arity, links, final, mode="I"):
     return ("#" if arity in (1, 2) else "") + "".join(f + " " for f in mode if f in "EDK") + " ".join([str(arity)] + [a + ("." if n else ":") for a, n in links] + [final])
 
@@ -314,6 +349,8 @@ def show_ops(ops):
 
 
 def random_case(rng, name=None, cap=26):
+    if name is None and rng.random() < 0.07:
+        return dst_case(rng)
     arity, links, final = name or random_name(rng)
     mode = "E" if rng.random() < 0.3 else ""
     r = rng.random()
@@ -781,7 +818,13 @@ def _run(arity, links, final, ops, mode=""):
                                 "deferred-kwarg" if "K" in mode else "plain"))
     tags.add("links%d" % n)
     ever_registered = False
+    dst_dot = arity in (1, 2) and links[0][1]
+    if dst_dot and (len(links) != 1 or links[0][0] != "c"):
+        return "bad-case", [], ["bad-case"]     # documented to raise TraitError / not mapped
     for op in ops:
+        if dst_dot and op[0] == "sc" and op[1:] == ["0", "0"]:
+            outs.append("skip")                  # None as the link: handle_dst raises TraitError
+            continue
         before = w.levels()
         late_before = w.under_late()
         was_registered = w.registered
@@ -843,6 +886,15 @@ def _run(arity, links, final, ops, mode=""):
                     hits.append(_hit("%s:observe-%s:%s" % (kind, "missing" if len(O) < len(exp) else "spurious", tshort),
                                      "observe handler calls %s, the statement demands %s" % (_calls(O), _calls(exp)),
                                      op=" ".join(op), expr=observe_expr(links, final)))
+            if dst_dot and tshort == "c" and oid == 0 and was_registered and changed:
+                tags.add("dst-link-change:" + ("equal-final" if op[2] == "2" else "other-final"))
+                newc = w.root.__dict__.get("child")
+                want = getattr(newc, FINAL[final])
+                for (o_, t_, nm, new) in w.legacy:
+                    if new != want or (arity == 2 and nm != FINAL[final]):
+                        hits.append(_hit("intermediate:legacy-args:dst", "handler(%snew) got (%r, %r) for a change of the "
+                                         "'.' link; the final trait of the new object is %s = %r" % (
+                                             "name, " if arity == 2 else "", nm, new, FINAL[final], want)))
             if arity == 4 and tshort in ("v", "x"):
                 for (o_, t_, old, new) in w.legacy:
                     if not (o_ == oid and t_ == tshort and new == old + 1):
@@ -863,7 +915,8 @@ def _run(arity, links, final, ops, mode=""):
                     hits.append(_hit("probe-raised", "bumping %d.%s raised %s" % (i, t, exc_name(e))))
                 for (o_, t_, old, new) in w.legacy:
                     lg.append(o_)
-                    if (o_, t_) != (i, t) or (arity == 4 and (old, new) != (cur, cur + 1)):
+                    if ((o_, t_) != (i, t) or (arity == 4 and (old, new) != (cur, cur + 1))
+                            or (arity in (1, 2, 3) and new != cur + 1) or (arity == 2 and old != FINAL[t])):
                         hits.append(_hit("final:legacy-args", "legacy handler got (%s, %s, %r, %r) for a bump of %d.%s" % (
                             o_, t_, old, new, i, t)))
                 for (o_, t_) in w.observed:
